@@ -28,13 +28,13 @@ Qed.
 
 (** if the implementation's committed observables equal the model's (no mismatch) on a
     well-formed script, they equal the reference's: the first half of [P] *)
-Lemma model_agreement_gives_reference mx t0 body o :
-  wf_body mx body (r_init t0) = true ->
-  let s := run (PFrame body false) (init {| repaired := true; maxc := mx |} t0) in
-  let r := rrun mx (PFrame body false) (r_init t0) in
+Lemma model_agreement_gives_reference mx bl t0 body o :
+  wf_body mx body (r_init bl t0) = true ->
+  let s := run (PFrame body false) (init {| repaired := true; maxc := mx; blocked := bl |} t0) in
+  let r := rrun mx (PFrame body false) (r_init bl t0) in
   final_matches (commit s) (aux s) o = final_matches (r_final r) (r_aux r) o.
 Proof.
-  intros Hwf s r. destruct (frame_atomicity mx t0 body Hwf) as [H1 H2].
+  intros Hwf s r. destruct (frame_atomicity mx bl t0 body Hwf) as (H1&H2&_).
   apply final_matches_ext; assumption.
 Qed.
 
@@ -56,15 +56,15 @@ Definition ex_script : list prog :=
    OSuicide 4 1; OSetNonce 1 6].
 
 Example frame_atomicity_nonvacuous :
-  wf_body 10 ex_script (r_init t_w) = true /\
-  let t := commit (run (PFrame ex_script false) (init {| repaired := true; maxc := 10 |} t_w)) in
+  wf_body 10 ex_script (r_init [] t_w) = true /\
+  let t := commit (run (PFrame ex_script false) (init {| repaired := true; maxc := 10; blocked := [] |} t_w)) in
   map (acct_of t) [1; 2; 3; 4; 5] =
     [Some (141, 6, 0); Some (54, 0, 0); Some (10, 0, 0); None; Some (0, 1, 2)] /\
   [stor t 1 2; stor t 1 3; stor t 4 1] = [9; 0; 0].
 Proof. vm_compute. repeat split; reflexivity. Qed.
 
 Example balance_views_nonvacuous :
-  let s := run (PFrame [OAddBalance 2 (5 * U + 7); OSetState 1 2 9] false) (init {| repaired := true; maxc := 10 |} t_w) in
+  let s := run (PFrame [OAddBalance 2 (5 * U + 7); OSetState 1 2 9] false) (init {| repaired := true; maxc := 10; blocked := [] |} t_w) in
   let s' := run_sends [(1, 3, 10); (2, 1, 1)] (commit_cache (precompile_snapshot s)) in
   map (fun a => (match lookup s' a with Some o => bal o | None => 0 end, bank_bal (cur_store s') a)) [1; 2; 3] =
     [(91 * U, 91); (54 * U, 54); (10 * U, 10)].
@@ -72,17 +72,35 @@ Proof. vm_compute. reflexivity. Qed.
 
 Definition ten_calls : list prog := repeat (PPrecompile [(1, 2, 1)] false) 10.
 Example call_limit_nonvacuous :
-  let s := run (PFrame ten_calls false) (init {| repaired := true; maxc := 10 |} t_w) in
+  let s := run (PFrame ten_calls false) (init {| repaired := true; maxc := 10; blocked := [] |} t_w) in
   calls s = 10 /\
   let s' := precompile_call s [(1, 2, 1)] false in
   calls s' = 11 /\ length (journal s') = length (journal s) /\
   acct_of (commit s') 2 = Some (60, 0, 0).
 Proof. vm_compute. repeat split; reflexivity. Qed.
 
+(** a credit to a blocked module account (7) and to a fresh address (3), then a precompile call in
+    the same frame: the pre-run flush fails, the call fails, the frame reverts; an outer frame goes on *)
+Definition t_b : store :=
+  {| accs := fun a => if a =? 1 then Some {| a_bal := 100; a_nonce := 1; a_code := 0 |}
+                      else if a =? 7 then Some {| a_bal := 0; a_nonce := 0; a_code := 0 |} else None;
+     stor := fun _ _ => 0 |}.
+Definition ex_blocked : list prog :=
+  [PFrame [OSubBalance 1 (12 * U); OAddBalance 3 (5 * U); OAddBalance 7 (7 * U); PPrecompile [(1, 3, 1)] false] true;
+   OSetNonce 1 2; PPrecompile [(1, 3, 2)] false].
+Example refused_flush_nonvacuous :
+  wf_body 10 ex_blocked (r_init [7] t_b) = true /\
+  let s0 := run (PFrame [OSubBalance 1 (12 * U); OAddBalance 3 (5 * U); OAddBalance 7 (7 * U)] false)
+                (init {| repaired := true; maxc := 10; blocked := [7] |} t_b) in
+  flush_fail (precompile_snapshot s0) = Some 7 /\
+  let t := commit (run (PFrame ex_blocked false) (init {| repaired := true; maxc := 10; blocked := [7] |} t_b)) in
+  map (acct_of t) [1; 3; 7] = [Some (98, 2, 0); Some (2, 0, 0); Some (0, 0, 0)].
+Proof. vm_compute. repeat split; reflexivity. Qed.
+
 (** ---- the behaviour before commit 72672e0 violates the property (vm_compute witnesses) ---- *)
 Definition agrees_at (rep : bool) (mx : Z) (t0 : store) (body : list prog) (al : list addr) (kl : list key) : bool :=
-  let t := commit (run (PFrame body false) (init {| repaired := rep; maxc := mx |} t0)) in
-  let r := r_final (rrun mx (PFrame body false) (r_init t0)) in
+  let t := commit (run (PFrame body false) (init {| repaired := rep; maxc := mx; blocked := [] |} t0)) in
+  let r := r_final (rrun mx (PFrame body false) (r_init [] t0)) in
   forallb (fun a => acct_eqb (acct_of t a) (acct_of r a)) al &&
   forallb (fun a => forallb (fun k => stor t a k =? stor r a k) kl) al.
 
@@ -96,7 +114,7 @@ Definition w_forgotten_selfdestruct : list prog :=
   [OSuicide 4 3; PFrame [OAddBalance 1 0; PPrecompile [] false] true].
 
 Lemma frame_atomicity_refuted_before_fix :
-  Forall (fun w => wf_body 10 w (r_init t_w) = true /\
+  Forall (fun w => wf_body 10 w (r_init [] t_w) = true /\
                    agrees_at false 10 t_w w [1; 2; 3; 4] [1] = false /\
                    agrees_at true 10 t_w w [1; 2; 3; 4] [1] = true)
          [w_lost_sstore; w_supply_mint; w_stale_object; w_forgotten_selfdestruct].
